@@ -24,6 +24,12 @@ def _half_quotient(a, p, q):
     return z3.Implies(z3.And(q != 0, 2 * a == p), a / q == p / (2 * q))
 
 
+@lemlib.lemma("quotient-bounds", 3)
+def _quotient_bounds(st, c, n):
+    q = (c - st) / st
+    return z3.Implies(st > 0, z3.And(z3.Implies(q <= n, c <= (n + 1) * st), z3.Implies(n - 1 < q, n * st < c)))
+
+
 @lemlib.lemma("degrees-times-pi", 2)
 def _deg_pi(x, pi):
     return z3.Implies(pi != 0, (x * 180 / pi) * pi == 180 * x)
@@ -295,10 +301,40 @@ def register_sholl(R):
         n = sh.fields["rs"].nz()
         return z3.And(*[is_count_of(E, res.items[j], n, rs_pred(sh, radius_of(o, j))) for j in range(k)])
 
+    def get_compat_post(E, v, o):
+        """compat (Sholl(x, step=s)): radii s, 2s, ..., n*s -- the last below ceil(rmax), the next not -- and one straddle count per radius"""
+        res, sh = v["result"], o["self"]
+        st, m = to_z3(sh.fields["step"], "real"), sh.fields["rs"].nz()
+        if not isinstance(res, SArr):
+            return False
+        n, c = res.nz(), z3.ToReal(-z3.ToInt(-to_z3(sh.fields["rmax"], "real")))
+        for fam, cnt, r in ext_C10.counted_rows(E):
+            if r.arr.eq(res.arr):
+                j, i = z3.Int(fresh_name("j")), z3.Int(fresh_name("i"))
+                pred = rs_pred(sh, Sym((z3.ToReal(j) + 1) * st, "real"))
+                return z3.And(n >= 0, (z3.ToReal(n) + 1) * st >= c, z3.Or(n == 0, z3.ToReal(n) * st < c), fam.n_rows == n, fam.row.nz() == m,
+                              z3.ForAll([j, i], z3.Implies(z3.And(j >= 0, j < n, i >= 0, i < m), fam.at(j, i) == pred(i))))
+        return False
+
+    def get_compat_hint(E, vars):
+        sh = vars.get("self")
+        if sh is None or sh.fields.get("step") is None:
+            return
+        for nn in ghost_consts(E, "arange_len!"):
+            lemlib.use(E, "quotient-bounds", to_z3(sh.fields["step"], "real"), z3.ToReal(-z3.ToInt(-to_z3(sh.fields["rmax"], "real"))), z3.ToReal(nn))
+
+    def with_step_(sh, step):
+        sh.fields["step"] = step
+        return sh
+
     variants = {f"steps=array-of-{k}-radii": (lambda S, _k=k: dict(self=sholl_obj(S), steps=NArr((_k,), [S.real(f"step{j}") for j in range(_k)], "real"))) for k in (1, 2, 3)}
     variants.update({f"steps={k}": (lambda S, _k=k: dict(self=sholl_obj(S), steps=_k)) for k in (1, 2, 3)})
+    variants["step-given(compat),steps-ignored"] = lambda S: dict(self=with_step_(sholl_obj(S), S.real("step")))
     R.add(f"{SHOLL}:Sholl.get", prop="C10", variants=variants,
-          ensures=[("one-straddle-count-per-radius", get_post), ("sholl-object-unchanged", rs_unchanged)],
+          requires=[("a-given-step-is-positive", lambda E, v, o: True if v["self"].fields.get("step") is None else to_z3(v["self"].fields["step"], "real") > 0)],
+          options=dict(hints={"post/one-straddle-count-per-radius": get_compat_hint}),
+          ensures=[("one-straddle-count-per-radius", lambda E, v, o: (get_compat_post if o["self"].fields.get("step") is not None else get_post)(E, v, o)),
+                   ("sholl-object-unchanged", rs_unchanged)],
           notes="rs: symbolic (m, 2) array, rmax any real; steps: an array of 1-3 symbolic radii, or the int 1, 2, 3 "
                 "(radii j*rmax/(steps+1), j = 1..steps)")
 
@@ -323,6 +359,66 @@ def register_sholl(R):
           requires=[("steps-nonnegative", lambda E, v, o: True if isinstance(v["steps"], NArr) else to_z3(v["steps"], "int") >= 0)],
           ensures=[("exactly-steps-radii-j-times-rmax-over-steps-plus-1", lambda E, v, o: (rs_arr_post if isinstance(o["steps"], NArr) else rs_int_post)(E, v, o))],
           notes="steps: any int >= 0 (symbolic), rmax any real; or a given array of radii, returned as a fresh copy")
+
+    # ------------------------------------------------------------------ Sholl._get_rs
+    def with_step(sh, step):
+        sh.fields["step"] = step
+        return sh
+
+    def ceil_of(x, c):
+        """c is the integer ceil(x)"""
+        return z3.And(z3.ToReal(c) - 1 < x, x <= z3.ToReal(c))
+
+    def grs_post(E, v, o):
+        sh, res = o["self"], v["result"]
+        step = sh.fields.get("step")
+        if step is None:  # the radii of get_rs(rmax, steps)
+            if isinstance(o["steps"], NArr):
+                return rs_arr_post(E, v, dict(steps=o["steps"]))
+            return rs_int_post(E, v, dict(steps=o["steps"], rmax=sh.fields["rmax"]))
+        # compat: the multiples step, 2*step, ..., n*step; the last one lies below ceil(rmax), the next one does not
+        if not isinstance(res, SArr):
+            return False
+        st, n = to_z3(step, "real"), res.nz()
+        c, j = z3.ToReal(ceil_int(sh.fields["rmax"])), z3.Int(fresh_name("j"))
+        return z3.And(n >= 0, (z3.ToReal(n) + 1) * st >= c, z3.Or(n == 0, z3.ToReal(n) * st < c),
+                      z3.ForAll([j], z3.Implies(z3.And(j >= 0, j < n), to_z3(res.get(j), "real") == (z3.ToReal(j) + 1) * st)))
+
+    def ceil_int(x):
+        """ceil(x) as an integer: -floor(-x), floor = SMT-LIB to_int"""
+        return -z3.ToInt(-to_z3(x, "real"))
+
+    def grs_hint(E, vars):
+        sh, res = vars.get("self"), vars.get("result")
+        step = sh.fields.get("step") if sh is not None else None
+        if step is None:
+            return
+        for nn in ghost_consts(E, "arange_len!"):
+            st, c = to_z3(step, "real"), z3.ToReal(ceil_int(sh.fields["rmax"]))
+            lemlib.use(E, "quotient-bounds", st, c, z3.ToReal(nn))
+
+    R.add(f"{SHOLL}:Sholl._get_rs", prop="C10",
+          variants={"step=None,steps=int": lambda S: dict(self=sholl_obj(S), steps=S.int("steps")),
+                    "step=None,steps=array-of-3-radii": lambda S: dict(self=sholl_obj(S), steps=NArr((3,), [S.real(f"step{j}") for j in range(3)], "real")),
+                    "step-given(compat),steps-ignored": lambda S: dict(self=with_step(sholl_obj(S), S.real("step")), steps=S.int("steps"))},
+          requires=[("steps-nonnegative-and-a-given-step-positive", lambda E, v, o: z3.And(True if isinstance(v["steps"], NArr) else to_z3(v["steps"], "int") >= 0,
+                                                                                          True if v["self"].fields.get("step") is None else to_z3(v["self"].fields["step"], "real") > 0))],
+          ensures=[("steps-radii-j-times-rmax-over-steps-plus-1-or-the-given-radii-or-the-multiples-of-a-given-step-below-ceil-rmax", grs_post),
+                   ("sholl-object-unchanged", rs_unchanged)],
+          options=dict(hints={"post/steps-radii-j-times-rmax-over-steps-plus-1-or-the-given-radii-or-the-multiples-of-a-given-step-below-ceil-rmax": grs_hint}),
+          notes="rmax any real, steps any int >= 0 or 3 given radii; compat path (Sholl(x, step=...)): any step > 0")
+
+    # ------------------------------------------------------------------ Sholl.get_count (deprecated alias)
+    def gc_post(E, v, o):
+        res, sh = v["result"], o["self"]
+        if not (isinstance(res, NArr) and res.shape == (20,) and res.kind == "int"):
+            return False
+        n = sh.fields["rs"].nz()
+        return z3.And(*[is_count_of(E, res.items[j], n, rs_pred(sh, radius_of(dict(self=sh, steps=20), j))) for j in range(20)])
+
+    R.add(f"{SHOLL}:Sholl.get_count", prop="C10", setup=lambda S: dict(self=sholl_obj(S)),
+          ensures=[("twenty-int-straddle-counts-at-radii-j-times-rmax-over-21", gc_post), ("sholl-object-unchanged", rs_unchanged)],
+          notes="deprecated alias of get() with the default 20 steps; rs symbolic (m, 2), any m")
 
     # ----------------------------------------------------------------- Sholl.__init__
     def rooted_tree(S, n):
@@ -384,13 +480,31 @@ def register_sholl(R):
         iso = [d2(u, z3.IntVal(i), z3.IntVal(j)) == d2(t, z3.IntVal(i), z3.IntVal(j)) for i in range(n) for j in range(i)]
         return z3.And(nof(u) == n, *same, *iso)
 
+    def init_step_setup(n):
+        def f(S):
+            d = init_setup(n)(S)
+            d["step"] = S.real("step")
+            return d
+
+        return f
+
+    def init_step(E, v, o):
+        """compat: a given step is kept (and announced as deprecated, once); without one no instance attribute is set and nothing is warned"""
+        sh = v["self"]
+        if o.get("step") is None:
+            return "step" not in sh.fields and len(E.warn_log) == 0
+        return sh.fields.get("step") is v["step"] and len(E.warn_log) == 1
+
+    init_variants = {f"tree-of-{n}-nodes": init_setup(n) for n in (1, 2, 3, 4)}
+    init_variants.update({f"tree-of-{n}-nodes,step-given(compat)": init_step_setup(n) for n in (1, 3)})
     R.add(f"{SHOLL}:Sholl.__init__", prop="C10",
-          variants={f"tree-of-{n}-nodes": init_setup(n) for n in (1, 2, 3, 4)},
+          variants=init_variants,
           raises={"ValueError": ("no-segment", lambda E, v, o: col(v["tree"], "pid").n == 1)},
           ensures=[("rs-are-the-root-distances-of-the-segment-end-points", init_rs),
                    ("rmax-is-their-maximum", init_rmax),
                    ("kept-tree-is-a-fresh-isometric-copy-with-the-same-topology", init_tree),
-                   ("at-least-one-segment", lambda E, v, o: col(o["tree"], "pid").n >= 2)],
+                   ("at-least-one-segment", lambda E, v, o: col(o["tree"], "pid").n >= 2),
+                   ("a-given-step-is-kept-with-one-deprecation-warning-else-none", init_step)],
           options=dict(hints={"post/rs-are-the-root-distances-of-the-segment-end-points": init_rs_hint}),
           notes="number of nodes fixed per variant (1-4; a single node has no segment: ValueError); parent pointers and coordinates symbolic, node 0 the root")
 
